@@ -5,7 +5,11 @@
 //   L2_history           continuous families: construction + history of <= 12 ops, all invariants after every op
 //   L3_parent_functions  pProb / qProb / Expectation of the parent: external reference, monotone, inverse, derivative relation
 //   L4_lookup            one value lookup (getValueCategory / getCategoryIndex) per case  (carries the known lookup finding)
-//   L5_compound_history  Simple / Constant / InvariantMixed / Mixture: construction + history, normalisation and merged classes
+//   L5_simple_constant   user-specified and constant distributions: construction + history, classes from values and weights
+//   L6_invariant_mixed   invariant class + nested continuous distribution: normalisation, merged classes, history
+//   L7_mixture           mixture of 2-3 continuous distributions: normalisation, merged classes, cdf, history
+// The first draw of L1, L2, L5, L6, L7 switches the value lookups after every step on (0 = off), so that a failure that is
+// not about lookups shrinks to a case without them.
 //
 // Reference: Boost.Math 1.83 in long double (common/c09_ref.hpp), written from the definitions; it never calls the library.
 // Readings chosen where the statement leaves a choice (weakest documented reading, DESIGN section 3 rule 2):
@@ -278,6 +282,8 @@ void guardKnown(vf::Ctx& c, const Model& next, double lo, double hi) {
   if (next.q.f == F_GAMMA && next.q.off < 0) c.excludeIfKnown("C09-gamma-negative-offset-expectation");
   // median-valued classes are the class medians times (parent mean / mean of the medians): 0/0 when the mean is 0
   if (next.median && next.scheme != SCH_EQINT && refE(next.q, hi) - refE(next.q, lo) == 0) c.excludeIfKnown("C09-median-zero-mean");
+  // 1-exp(-lambda x) cannot resolve a domain far in the tail: a bound becomes -log(0) = inf, Expectation(inf) = NaN
+  if (next.q.f == F_EXPO && refP(next.q, hi) - refP(next.q, lo) < 1e-12L) c.excludeIfKnown("C09-nan-class-value-hang");
 }
 
 void checkCont(vf::Ctx& c, const DDI& d, const Model& m, const CheckOpt& opt, const string& where) {
@@ -356,22 +362,28 @@ void checkCont(vf::Ctx& c, const DDI& d, const Model& m, const CheckOpt& opt, co
       // v_k = c * median_k with sum p_k v_k = parent mean
       double surf = std::abs(static_cast<double>(meanRef * mass));
       if (surf == 0) c.excludeIfKnown("C09-median-zero-mean");
-      if (surf < 100 * tolE) {  // no usable proportionality factor: only the mean itself is compared
+      double uLo = d.pProb(lo), ec = (d.pProb(hi) - uLo) / static_cast<double>(K);
+      vector<double> med(K); LD sum = 0;
+      for (size_t k = 0; k < K; ++k) {
+        med[k] = d.qProb(uLo + (static_cast<double>(k) + 0.5) * ec); sum += med[k];
+        // the candidate median is validated by the external cdf (bracket form) and must lie inside its class
+        LD dn, up; bracketed(br, extP, med[k], lo, hi, dn, up);
+        LD u = Flo + (static_cast<LD>(k) + 0.5L) * mass / K;
+        double over = static_cast<double>(std::max<LD>(std::max<LD>(dn - u, u - up), 0));
+        CHECK(over <= tol.q + 2 * tol.p, where << ": qProb at the middle probability of class " << k << " gives " << vf::dec(med[k]) << " whose external cdf is " << vf::dec(static_cast<double>((dn + up) / 2)) << ", expected " << vf::dec(static_cast<double>(u)));
+        CHECK(med[k] >= o.b[k] && med[k] <= o.b[k + 1], where << ": the median " << vf::dec(med[k]) << " of class " << k << " lies outside its interval [" << vf::dec(o.b[k]) << ";" << vf::dec(o.b[k + 1]) << "]");
+      }
+      if (surf < 100 * tolE) {
+        // no usable estimate of the proportionality factor from the mean: the mean itself is compared, and some positive
+        // factor must exist that takes every value back into its own class
         c.label("median_mean_near_zero");
         double t = (102 * tolE + static_cast<double>(K) * tol.q * scale) / massD + slack;
         CHECK(std::abs(static_cast<double>(dmean - meanRef)) <= t, where << ": discrete mean of the median-valued classes = " << vf::dec(static_cast<double>(dmean)) << " but the parent's mean over the domain is " << vf::dec(static_cast<double>(meanRef)) << " (tolerance " << t << "); values " << showVec(o.v));
+        size_t piv = 0; for (size_t k = 0; k < K; ++k) if (std::abs(med[k]) > std::abs(med[piv])) piv = k;
+        double f = med[piv] != 0 ? o.v[piv] / med[piv] : 1;
+        CHECK(f > 0 && std::isfinite(f), where << ": median-valued classes " << showVec(o.v) << " are not a positive multiple of the class medians " << showVec(med));
+        for (size_t k = 0; k < K; ++k) CHECK(o.v[k] / f >= o.b[k] - slack / f - 1e-9 * scale && o.v[k] / f <= o.b[k + 1] + slack / f + 1e-9 * scale, where << ": median-valued class " << k << " has value " << vf::dec(o.v[k]) << "; divided by the common factor " << vf::dec(f) << " it lies outside its interval [" << vf::dec(o.b[k]) << ";" << vf::dec(o.b[k + 1]) << "]; values " << showVec(o.v) << " medians " << showVec(med));
       } else {
-        double uLo = d.pProb(lo), ec = (d.pProb(hi) - uLo) / static_cast<double>(K);
-        vector<double> med(K); LD sum = 0;
-        for (size_t k = 0; k < K; ++k) {
-          med[k] = d.qProb(uLo + (static_cast<double>(k) + 0.5) * ec); sum += med[k];
-          // the candidate median is validated by the external cdf (bracket form) and must lie inside its class
-          LD dn, up; bracketed(br, extP, med[k], lo, hi, dn, up);
-          LD u = Flo + (static_cast<LD>(k) + 0.5L) * mass / K;
-          double over = static_cast<double>(std::max<LD>(std::max<LD>(dn - u, u - up), 0));
-          CHECK(over <= tol.q + 2 * tol.p, where << ": qProb at the middle probability of class " << k << " gives " << vf::dec(med[k]) << " whose external cdf is " << vf::dec(static_cast<double>((dn + up) / 2)) << ", expected " << vf::dec(static_cast<double>(u)));
-          CHECK(med[k] >= o.b[k] && med[k] <= o.b[k + 1], where << ": the median " << vf::dec(med[k]) << " of class " << k << " lies outside its interval [" << vf::dec(o.b[k]) << ";" << vf::dec(o.b[k + 1]) << "]");
-        }
         LD cfac = meanRef * K / sum;
         double rel = 2 * tolE / surf + 2 * tol.p / massD + 64 * EPS;
         for (size_t k = 0; k < K; ++k) {
@@ -465,6 +477,7 @@ string showRestr(const Restr& r) { return string(r.in1 ? "[" : "]") + vf::dec(r.
 
 // =================================================================== L1: fresh objects, exhaustive over K
 LAW(L1_fresh_enum, ENUM, 4, 4, 0, "K >= 2 and (shape < 1 or median-valued classes or a non-default scheme)", 10, true) {
+  bool lookups = c.flag();   // value lookups after every step (first draw of every history law: 0 = without)
   Fam f = static_cast<Fam>(c.below(NFAM));
   size_t K = static_cast<size_t>(c.irange(1, 32));
   bool median = c.flag();
@@ -481,23 +494,24 @@ LAW(L1_fresh_enum, ENUM, 4, 4, 0, "K >= 2 and (shape < 1 or median-valued classe
     case F_BETA: m.q.a = std::max(BETA_SHAPE_MIN, A[preset]); m.q.b = std::max(BETA_SHAPE_MIN, B[3 - preset]); break;
     default: break;
   }
-  c.desc << showModel(m) << (median ? " then setMedian(1)" : "");
+  c.desc << (lookups ? "[lookups] " : "") << showModel(m) << (median ? " then setMedian(1)" : "");
   c.shardPoint();
   bool shapeLt1 = (f == F_GAMMA || f == F_BETA) && (m.q.a < 1 || (f == F_BETA && m.q.b < 1));
   c.nt(K >= 2 && (shapeLt1 || median || scheme != SCH_EQPROB));
   unique_ptr<DDI> d = make(m.q, K, scheme);
-  CheckOpt opt;
+  CheckOpt opt; opt.lookups = lookups;
   checkCont(c, *d, m, opt, "after construction");
   if (median) { m.median = true; guardKnown(c, m, d->getLowerBound(), d->getUpperBound()); d->setMedian(true); checkCont(c, *d, m, opt, "after setMedian(true)"); }
   checkParent(c, *d, m.q, "parent functions", 0);
 }
 
 // =================================================================== L2: histories on the continuous families
-LAW(L2_history, RC, 9000, 400000, 160, "K >= 2 and (a restriction, a class-count change or a rejected update occurred), or a shape < 1", 10, true) {
+LAW(L2_history, RC, 9000, 400000, 160, "K >= 2 and (a restriction, a class-count change or a rejected update occurred), or a shape < 1", 3, true) {
+  CheckOpt opt; opt.lookups = c.flag();
   Model m; m.q = genCP(c, genFam(c)); m.K = genK(c); m.scheme = genScheme(c, m.q.f);
   bool startMedian = c.oneIn(3);
-  CheckOpt opt; opt.lookT = 0.05 + 0.9 * c.unit();
-  c.desc << showModel(m);
+  opt.lookT = 0.05 + 0.9 * c.unit();
+  c.desc << (opt.lookups ? "[lookups] " : "") << showModel(m);
   unique_ptr<DDI> d = make(m.q, m.K, m.scheme);
   checkCont(c, *d, m, opt, "after construction");
   checkParent(c, *d, m.q, "parent functions after construction", 1);
@@ -672,6 +686,433 @@ LAW(L4_lookup, RC, 6000, 300000, 40, "K >= 2 and the point is not in the first c
     for (size_t j = f; j <= l; ++j) if (vf::sameBits(got, v[j])) ok = true;
     CHECK(ok, "getValueCategory(" << vf::dec(x) << ") = " << vf::dec(got) << " but the point lies in class " << f << " = [" << vf::dec(b[f]) << ";" << vf::dec(b[f + 1]) << "] whose value is " << vf::dec(v[f]) << "; values " << showVec(v) << " bounds " << showVec(b));
   }
+}
+
+// =================================================================== compound distributions
+namespace {
+
+// the class documents "category values that differ less than [the precision] will be considered identical"
+struct RefOrder { double prec; bool operator()(double a, double b) const { return a < b - prec; } };
+typedef map<double, LD, RefOrder> RefMap;
+void addClass(RefMap& mp, double v, LD p) { auto it = mp.find(v); if (it == mp.end()) mp[v] = p; else it->second += p; }
+void compareClasses(const Obs& o, const RefMap& want, double tolP, const string& where) {
+  CHECK(o.v.size() == want.size(), where << ": " << o.v.size() << " classes " << showVec(o.v) << " but the definition gives " << want.size());
+  size_t k = 0;
+  for (auto& kv : want) {
+    CHECK(vf::sameBits(o.v[k], kv.first), where << ": class " << k << " has value " << vf::dec(o.v[k]) << ", expected " << vf::dec(kv.first) << "; values " << showVec(o.v));
+    CHECK(std::abs(o.p[k] - static_cast<double>(kv.second)) <= tolP, where << ": class " << k << " (value " << vf::dec(o.v[k]) << ") has probability " << vf::dec(o.p[k]) << ", the definition gives " << vf::dec(static_cast<double>(kv.second)) << "; probabilities " << showVec(o.p));
+    ++k;
+  }
+}
+
+// a parameter of a compound: a parameter of component `comp` (which = field) or a weight in [0,1] (comp = -1, which = index)
+struct Slot { string shortName; int comp; int which; };
+double genWeightValue(vf::Ctx& c, bool wantBad, bool* bad) {
+  *bad = wantBad;
+  if (wantBad) return c.pick({-0.1, 1.5, -1e-9});
+  switch (c.weighted({3, 1, 1, 3})) { case 0: return c.pick({0.5, 0.25, 0.75, 0.1}); case 1: return 0.0; case 2: return 1.0; default: return c.unit(); }
+}
+
+// One update (setParameterValue or matchParametersValues) through the compound object. comps are the models of the nested
+// continuous distributions, nested(i) the nested library objects (to know their domains), weights the model of the weights.
+// Returns 1 accepted, 0 rejected.
+template <class NestedF>
+int compoundUpdate(vf::Ctx& c, DDI& outer, const vector<Slot>& slots, vector<Model>& comps, vector<double>& weights, NestedF nested, bool& rejectedFlag, ostringstream& w) {
+  bool single = c.flag();
+  size_t n = single ? 1 : 1 + c.below(std::min<size_t>(slots.size(), 4));
+  vector<size_t> idx; for (size_t i = 0; i < slots.size(); ++i) idx.push_back(i);
+  for (size_t i = 0; i < n; ++i) swap(idx[i], idx[i + c.below(slots.size() - i)]);
+  bool wantBad = c.oneIn(4); size_t badAt = c.below(n);
+  vector<Model> nc = comps; vector<double> nw = weights; bool anyRejected = false; ParameterList pl;
+  c.desc << "; " << (single ? "setParameterValue(" : "matchParametersValues(");
+  for (size_t i = 0; i < n; ++i) {
+    const Slot& s = slots[idx[i]]; bool bad; double x;
+    if (s.comp < 0) { x = genWeightValue(c, wantBad && i == badAt, &bad); nw[static_cast<size_t>(s.which)] = x; }
+    else { x = genParamValue(c, comps[static_cast<size_t>(s.comp)].q, s.which, wantBad && i == badAt, &bad); field(nc[static_cast<size_t>(s.comp)].q, s.which) = x; }
+    c.desc << (i ? "," : "") << s.shortName << "=" << vf::dec(x);
+    if (!constraintAccepts(outer.parameter(s.shortName), x)) anyRejected = true;
+    pl.addParameter(Parameter(outer.getNamespace() + s.shortName, x));
+  }
+  c.desc << ")"; w << (single ? "setParameterValue" : "matchParametersValues");
+  if (!anyRejected)
+    for (size_t i = 0; i < comps.size(); ++i) {
+      const DDI& nd = nested(i); double dlo = nd.getLowerBound(), dhi = nc[i].q.f == F_TEXP ? nc[i].q.b : nd.getUpperBound();
+      if (nc[i].q.f == F_GAMMA && nc[i].q.off > dlo) c.excludeIfKnown("C09-gamma-offset-domain");
+      guardKnown(c, nc[i], dlo, dhi);
+    }
+  Obs before = observeD(outer);
+  try {
+    if (single) { const Slot& s = slots[idx[0]]; outer.setParameterValue(s.shortName, s.comp < 0 ? nw[static_cast<size_t>(s.which)] : field(nc[static_cast<size_t>(s.comp)].q, s.which)); }
+    else outer.matchParametersValues(pl);
+    CHECK(!anyRejected, w.str() << ": the update was accepted although a value is rejected by the constraint of its parameter");
+    comps = nc; weights = nw; return 1;
+  } catch (ConstraintException&) {
+    CHECK(anyRejected, w.str() << ": ConstraintException although every value is accepted by the constraint of its parameter");
+    c.desc << "!"; rejectedFlag = true;
+    string df = diffObs(before, observeD(outer));
+    CHECK(df.empty(), w.str() << ": a rejected update changed the " << df);
+    return 0;
+  }
+}
+
+Model genNestedModel(vf::Ctx& c, bool allowTexp) {
+  Model m; Fam f = genFam(c); if (!allowTexp && f == F_TEXP) f = F_EXPO;
+  m.q = genCP(c, f); m.K = c.weighted({3, 1}) == 0 ? static_cast<size_t>(c.irange(1, 6)) : static_cast<size_t>(c.irange(1, 32)); m.scheme = genScheme(c, f);
+  return m;
+}
+bool nestedRegular(const Model& m, const DDI& nd) { return regularState(m, refP(m.q, nd.getLowerBound()), refP(m.q, nd.getUpperBound())); }
+
+}  // namespace
+
+// =================================================================== L5: user-specified and constant distributions
+LAW(L5_simple_constant, RC, 5000, 200000, 140, "at least two classes and (an update of a value or a weight, a restriction, or a rejected update)", 5, true) {
+  CheckOpt opt; opt.lookups = c.flag(); if (opt.lookups) c.desc << "[lookups] ";
+  bool constant = c.oneIn(5);
+  opt.domainEndsRaise = false; opt.lookT = 0.05 + 0.9 * c.unit();
+  unique_ptr<DDI> d; vector<double> V, theta; bool fixed = false; map<size_t, vector<double>> ranges;
+  auto probs = [&]() { vector<LD> p(V.size()); LD rest = 1; for (size_t i = 0; i + 1 < V.size(); ++i) { p[i] = static_cast<LD>(theta[i]) * rest; rest *= 1 - static_cast<LD>(theta[i]); } p[V.size() - 1] = rest; return p; };
+  auto genValue = [&]() { return c.flag() ? static_cast<double>(c.zig(8)) : c.real(-10, 10); };
+  auto buildSimple = [&](unique_ptr<DDI>& out, vector<double>& vals, vector<double>& th, bool& fx, map<size_t, vector<double>>& rg) {
+    size_t n = static_cast<size_t>(c.irange(1, 6)); vals.clear(); th.clear(); rg.clear();
+    double x = genValue(); vector<double> sorted;
+    for (size_t i = 0; i < n; ++i) { sorted.push_back(x); x += c.flag() ? c.pick({1.0, 0.5, 2.0, 0.001}) : c.real(0.01, 3); }
+    vector<unsigned> wts; unsigned W = 0; for (size_t i = 0; i < n; ++i) { wts.push_back(1 + static_cast<unsigned>(c.below(5))); W += wts.back(); }
+    int ctor = static_cast<int>(c.below(3)); fx = c.oneIn(5);
+    vector<size_t> order; for (size_t i = 0; i < n; ++i) order.push_back(i);
+    if (ctor != 0) for (size_t i = 0; i + 1 < n; ++i) swap(order[i], order[i + c.below(n - i)]);   // the vector constructors take any order
+    vector<double> pr;
+    for (size_t i = 0; i < n; ++i) { vals.push_back(sorted[order[i]]); pr.push_back(static_cast<double>(wts[order[i]]) / W); }
+    LD rest = 1; for (size_t i = 0; i + 1 < n; ++i) { th.push_back(static_cast<double>(pr[i] / rest)); rest -= pr[i]; }
+    c.desc << "Simple(" << (ctor == 0 ? "map" : ctor == 1 ? "vectors" : "vectors+ranges") << (fx ? ",fixed" : "") << " values " << showVec(vals) << " probs " << showVec(pr);
+    if (ctor == 0) { map<double, double> mp; for (size_t i = 0; i < n; ++i) mp[vals[i]] = pr[i]; out.reset(new SimpleDiscreteDistribution(mp, NumConstants::TINY(), fx)); }
+    else if (ctor == 1) out.reset(new SimpleDiscreteDistribution(vals, pr, NumConstants::TINY(), fx));
+    else {
+      for (size_t i = 0; i < n; ++i) if (c.oneIn(3)) { double a = vals[i] - c.pick({0.5, 1.0, 3.0, 0.0}), b = vals[i] + c.pick({0.5, 1.0, 3.0, 0.0}); rg[i + 1] = {a, b}; c.desc << " range" << i + 1 << "=[" << vf::dec(a) << ";" << vf::dec(b) << "]"; }
+      out.reset(new SimpleDiscreteDistribution(vals, rg, pr, NumConstants::TINY(), fx));
+    }
+    c.desc << ")";
+    // the weights the class documents: theta_i = p_i / (1 - p_1 - ... - p_{i-1})
+    if (!fx) for (size_t i = 0; i + 1 < n; ++i) {
+      double got = out->getParameterValue("theta" + to_string(i + 1));
+      CHECK(std::abs(got - th[i]) <= 1e-13, "after construction: theta" << i + 1 << " = " << vf::dec(got) << ", the documented parametrisation gives " << vf::dec(th[i]));
+      th[i] = got;
+    }
+  };
+  double cval = 0;
+  if (constant) { cval = genValue(); c.desc << "Constant(" << vf::dec(cval) << ")"; d.reset(new ConstantDistribution(cval)); }
+  else buildSimple(d, V, theta, fixed, ranges);
+  auto check = [&](const string& where) {
+    if (constant) {
+      Obs o = checkStructure(*d, 1, 2 * precisionOf(*d), 1e-15, true, where);
+      CHECK(vf::sameBits(o.v[0], cval) && o.p[0] == 1, where << ": the constant distribution has class (" << vf::dec(o.v[0]) << "," << vf::dec(o.p[0]) << "), expected (" << vf::dec(cval) << ",1)");
+      CHECK(vf::sameBits(o.lo, cval) && vf::sameBits(o.hi, cval), where << ": domain of the constant distribution");
+      if (opt.lookups) CHECK(vf::sameBits(d->getValueCategory(cval), cval), where << ": getValueCategory(value)");
+      if (opt.lookups && !c.isKnown("C09-lookup-off-by-one")) CHECK(d->getCategoryIndex(cval) == 0, where << ": getCategoryIndex(value)");
+      auditParams(*d, where); return;
+    }
+    size_t n = V.size(); double prec = precisionOf(*d);
+    Obs o = checkStructure(*d, n, (n + 1) * prec, 1e-12, true, where);
+    // classes = the values in increasing order, each with the probability theta_i * prod_{j<i} (1 - theta_j) (last: the rest)
+    RefMap want(RefOrder{prec}); vector<LD> p = probs();
+    for (size_t i = 0; i < n; ++i) addClass(want, V[i], p[i]);
+    compareClasses(o, want, 1e-13, where);
+    for (size_t k = 0; k + 1 < n; ++k) CHECK(std::abs(o.b[k + 1] - (o.v[k] + o.v[k + 1]) / 2) <= 4 * EPS * std::max(std::abs(o.v[k]), std::abs(o.v[k + 1])), where << ": interior bound " << k << " = " << vf::dec(o.b[k + 1]) << " is not between the values " << vf::dec(o.v[k]) << " and " << vf::dec(o.v[k + 1]));
+    if (opt.lookups) checkLookups(c, *d, o, (n + 1) * prec, opt, where);
+    auditParams(*d, where);
+  };
+  check("after construction");
+  bool touched = false, rejected = false;
+  int nops = c.irange(0, 10);
+  for (int op = 0; op < nops; ++op) {
+    ostringstream w; w << "after op " << op + 1 << " ";
+    int kind = static_cast<int>(c.weighted({5, 3, 1, 1, 1, 1}));
+    bool hasParams = d->getNumberOfParameters() > 0;
+    if (kind == 0 && !hasParams) kind = 3;
+    switch (kind) {
+      case 0: {  // update of values / weights
+        vector<string> names; const ParameterList& pl0 = d->getParameters(); for (size_t i = 0; i < pl0.size(); ++i) names.push_back(d->getParameterNameWithoutNamespace(pl0[i].getName()));
+        bool single = c.flag(); size_t n = single ? 1 : 1 + c.below(std::min<size_t>(names.size(), 3));
+        for (size_t i = 0; i < n; ++i) swap(names[i], names[i + c.below(names.size() - i)]);
+        bool wantBad = c.oneIn(4); size_t badAt = c.below(n); bool anyRejected = false, collide = false; ParameterList pl;
+        vector<double> nV = V, nT = theta; double ncv = cval;
+        c.desc << "; " << (single ? "setParameterValue(" : "matchParametersValues(");
+        for (size_t i = 0; i < n; ++i) {
+          const string& nm = names[i]; double x; bool bad;
+          if (nm[0] == 't') { x = genWeightValue(c, wantBad && i == badAt, &bad); nT[static_cast<size_t>(stoi(nm.substr(5))) - 1] = x; }
+          else if (nm == "value") { x = genValue(); ncv = x; }
+          else {
+            size_t vi = static_cast<size_t>(stoi(nm.substr(1))) - 1;
+            switch (c.weighted({3, 2, 2})) { case 0: x = V[vi] + c.pick({0.25, -0.25, 1.0, -1.0, 5.0, -5.0}); break; case 1: x = genValue(); break; default: x = V[vi] + c.real(-2, 2); }
+            nV[vi] = x;
+          }
+          c.desc << (i ? "," : "") << nm << "=" << vf::dec(x);
+          if (!constraintAccepts(d->parameter(nm), x)) anyRejected = true;
+          pl.addParameter(Parameter(d->getNamespace() + nm, x));
+        }
+        c.desc << ")"; w << (single ? "setParameterValue" : "matchParametersValues");
+        for (size_t i = 0; i < nV.size(); ++i) for (size_t j = i + 1; j < nV.size(); ++j) if (std::abs(nV[i] - nV[j]) < 1e-3) collide = true;
+        if (collide && !anyRejected) { c.desc << "(skipped: two values would coincide)"; break; }   // coinciding values are separated artificially: not generated
+        Obs before = observeD(*d);
+        try {
+          if (single) d->setParameterValue(names[0], pl[0].getValue()); else d->matchParametersValues(pl);
+          CHECK(!anyRejected, w.str() << ": the update was accepted although a value is rejected by the constraint of its parameter");
+          V = nV; theta = nT; cval = ncv; touched = true;
+        } catch (ConstraintException&) {
+          CHECK(anyRejected, w.str() << ": ConstraintException although every value is accepted by the constraint of its parameter");
+          c.desc << "!"; rejected = true;
+          string df = diffObs(before, observeD(*d)); CHECK(df.empty(), w.str() << ": a rejected update changed the " << df);
+        }
+        break; }
+      case 1: {  // restriction
+        double lo = constant ? cval : *min_element(V.begin(), V.end()), hi = constant ? cval : *max_element(V.begin(), V.end());
+        double a, b; bool in1 = c.flag(), in2 = c.flag();
+        switch (c.weighted({4, 1, 1})) {
+          case 0: a = lo - c.pick({1.0, 0.0, 0.5, 10.0}); b = hi + c.pick({1.0, 0.0, 0.5, 10.0}); break;
+          case 1: a = lo + c.pick({0.0005, 0.5}); b = hi + 1; break;
+          default: a = lo - 1; b = hi - c.pick({0.0005, 0.5}); break;
+        }
+        if (!(a < b)) { a = lo - 1; b = hi + 1; }
+        IntervalConstraint ic(a, b, in1, in2);
+        c.desc << "; restrictToConstraint(" << (in1 ? "[" : "]") << vf::dec(a) << ";" << vf::dec(b) << (in2 ? "]" : "[") << ")"; w << "restrictToConstraint";
+        bool allIn = constant ? refAccepts(ic, cval) : true; if (!constant) for (double x : V) if (!refAccepts(ic, x)) allIn = false;
+        Obs before = observeD(*d);
+        try {
+          d->restrictToConstraint(ic);
+          CHECK(allIn || !hasParams, w.str() << ": the restriction was accepted although a class value lies outside " << ic.getDescription());
+          if (hasParams) touched = true;
+        } catch (Exception&) {   // Simple raises Exception, Constant ConstraintException (derived)
+          CHECK(!allIn && hasParams, w.str() << ": the restriction raised although every class value lies inside " << ic.getDescription());
+          c.desc << "!"; rejected = true;
+          string df = diffObs(before, observeD(*d)); CHECK(df.empty(), w.str() << ": a refused restriction changed the " << df);
+        }
+        break; }
+      case 2: { bool md = c.flag(); c.desc << "; setMedian(" << md << ")"; w << "setMedian"; d->setMedian(md); break; }
+      case 3: c.desc << "; discretize()"; w << "discretize()"; d->discretize(); break;
+      case 4: {
+        c.desc << "; clone"; w << "clone"; unique_ptr<DDI> e(d->clone());
+        string df = diffObs(observeD(*d), observeD(*e)); CHECK(df.empty(), w.str() << ": the clone differs from the original in the " << df);
+        if (c.flag()) d = std::move(e);
+        break; }
+      default: {  // assignment over another object of the same class
+        c.desc << "; assign over "; w << "assignment";
+        unique_ptr<DDI> e;
+        if (constant) { double y = genValue(); c.desc << "Constant(" << vf::dec(y) << ")"; e.reset(new ConstantDistribution(y)); dynamic_cast<ConstantDistribution&>(*e) = dynamic_cast<const ConstantDistribution&>(*d); }
+        else { vector<double> v2, t2; bool f2; map<size_t, vector<double>> r2; buildSimple(e, v2, t2, f2, r2); dynamic_cast<SimpleDiscreteDistribution&>(*e) = dynamic_cast<const SimpleDiscreteDistribution&>(*d); }
+        string df = diffObs(observeD(*d), observeD(*e)); CHECK(df.empty(), w.str() << ": the assigned object differs from the source in the " << df);
+        d = std::move(e);
+        break; }
+    }
+    check(w.str());
+  }
+  c.nt((constant || V.size() >= 2) && (touched || rejected));
+}
+
+// =================================================================== L6: invariant + nested continuous distribution
+LAW(L6_invariant_mixed, RC, 4000, 200000, 170, "the invariant lies inside the support of the nested distribution, or coincides with a class, or an update / restriction / class-count change occurred", 5, true) {
+  CheckOpt opt; opt.lookups = c.flag(); if (opt.lookups) c.desc << "[lookups] ";
+  vector<Model> comps(1); comps[0] = genNestedModel(c, true); Model& nm = comps[0];
+  vector<double> wts(1); wts[0] = c.weighted({3, 1, 1, 3}) == 0 ? c.pick({0.25, 0.5, 0.1}) : c.flag() ? c.unit() : (c.flag() ? 0.0 : 1.0);
+  unique_ptr<DDI> nd = make(nm.q, nm.K, nm.scheme);
+  if (c.oneIn(4)) { nm.median = true; guardKnown(c, nm, nd->getLowerBound(), nd->getUpperBound()); nd->setMedian(true); }
+  guardKnown(c, nm, nd->getLowerBound(), nd->getUpperBound());
+  Vdouble cats = nd->getCategories(); double nlo = nd->getLowerBound(), nhi = nd->getUpperBound(), inv = 0; int place = static_cast<int>(c.weighted({4, 1, 2, 2, 1}));
+  switch (place) {
+    case 0: inv = 0; break;
+    case 1: inv = nlo > -1e22 ? nlo - c.pick({1.0, 0.5, 1e-13}) : cats.front() - 1; break;   // below
+    case 2: inv = cats[c.below(cats.size())]; break;                                            // coincides with a class value
+    case 3: { size_t k = c.below(cats.size()); inv = k + 1 < cats.size() ? cats[k] + (cats[k + 1] - cats[k]) * (0.1 + 0.8 * c.unit()) : cats[k] + c.pick({1.0, 1e-13, 0.5}); break; }   // inside
+    default: inv = nhi < 1e22 ? nhi + c.pick({1.0, 0.5}) : cats.back() + 100; break;           // above
+  }
+  if (std::isnan(inv)) inv = 0;
+  c.desc << "InvariantMixed(" << showModel(nm) << ", p=" << vf::dec(wts[0]) << ", invariant=" << vf::dec(inv) << ")";
+  unique_ptr<DDI> d(new InvariantMixedDiscreteDistribution(std::move(nd), wts[0], inv));
+  auto nestedOf = [&](size_t) -> const DDI& { return dynamic_cast<const InvariantMixedDiscreteDistribution&>(*d).variableSubDistribution(); };
+  opt.lookT = 0.05 + 0.9 * c.unit();
+  bool outerMedian = false;
+  auto check = [&](const string& where) {
+    const DDI& nst = nestedOf(0);
+    checkCont(c, nst, nm, opt, where + " (nested distribution)");
+    if (!nestedRegular(nm, nst)) { auditParams(*d, where); return; }
+    double prec = precisionOf(*d), p = wts[0];
+    Vdouble nv = nst.getCategories(), np = nst.getProbabilities();
+    RefMap want(RefOrder{prec}); want[inv] = p;
+    for (size_t j = 0; j < nv.size(); ++j) {
+      // a nested class within the precision of the invariant is the same class: it is overwritten instead of added unless exactly equal
+      if (nv[j] != inv && !(inv < nv[j] - prec) && !(nv[j] < inv - prec)) c.excludeIfKnown("C09-invariant-near-class-overwritten");
+      addClass(want, nv[j], (1 - static_cast<LD>(p)) * np[j]);
+    }
+    size_t K = want.size();
+    // the invariant merged with a class of the nested distribution: the bounds get one entry too many and the intervals of
+    // the classes above the invariant are shifted (known finding): then only the classes themselves are compared
+    const bool merged = K == nv.size(), boundsOff = merged && c.isKnown("C09-invariant-coincide-bounds");
+    if (merged) c.label("invariant_merged_with_a_class");
+    Obs o = checkStructure(*d, K, (K + 1) * prec, K * 1e-12, !nm.median && !boundsOff, where);
+    compareClasses(o, want, 4 * EPS, where);
+    // cdf of the compound: (1-p) F + p [x >= invariant]
+    for (size_t k = 0; k < o.v.size(); ++k) {
+      double x = o.v[k]; if (std::abs(x - inv) <= 8 * EPS * std::abs(inv)) continue;
+      LD ref = (1 - static_cast<LD>(p)) * refP(nm.q, x) + (x < inv ? 0 : p);
+      CHECK(std::abs(d->pProb(x) - static_cast<double>(ref)) <= tolOf(nm.q.f).p + 4 * EPS, where << ": pProb(" << vf::dec(x) << ") = " << vf::dec(d->pProb(x)) << " but (1-p) F(x) + p [x >= invariant] = " << vf::dec(static_cast<double>(ref)));
+    }
+    if (!boundsOff && opt.lookups) checkLookups(c, *d, o, (K + 1) * prec, opt, where);
+    auditParams(*d, where);
+  };
+  check("after construction");
+  vector<Slot> slots; for (const PRef& pr : paramsOf(nm.q)) slots.push_back({nsOf(nm.q.f) + pr.name, 0, pr.which}); slots.push_back({"p", -1, 0});
+  bool touched = false, rejected = false;
+  int nops = c.irange(0, 10);
+  for (int op = 0; op < nops; ++op) {
+    ostringstream w; w << "after op " << op + 1 << " ";
+    const DDI& nst = nestedOf(0);
+    switch (c.weighted({5, 3, 2, 3, 1, 1, 1})) {
+      case 0: if (compoundUpdate(c, *d, slots, comps, wts, nestedOf, rejected, w)) touched = true; break;
+      case 1: { size_t nk = genK(c); c.desc << "; setNumberOfCategories(" << nk << ")"; w << "setNumberOfCategories(" << nk << ")"; nm.K = nk; guardKnown(c, nm, nst.getLowerBound(), nst.getUpperBound()); d->setNumberOfCategories(nk); touched = true; break; }
+      case 2: {
+        bool md = c.flag(); c.desc << "; setMedian(" << md << ")"; w << "setMedian(" << md << ")";
+        // the compound forwards the request only when its own flag changes (documented "if the median value is modified")
+        if (md != outerMedian) { Model nx = nm; nx.median = md; guardKnown(c, nx, nst.getLowerBound(), nst.getUpperBound()); nm.median = md; outerMedian = md; }
+        d->setMedian(md); break; }
+      case 3: {  // restriction
+        if (nm.q.f == F_TEXP) { c.desc << "; nop"; break; }
+        Restr r; auto massOf = [&](double a, double b) { return static_cast<double>(refP(nm.q, b) - refP(nm.q, a)); };
+        if (!nestedRegular(nm, nst) || !genRestriction(c, nst, true, massOf, r, false)) { c.desc << "; nop"; break; }
+        if (c.flag()) { if (inv < r.x1) r.x1 = inv - c.pick({0.0, 1.0}); if (inv > r.x2) r.x2 = inv + c.pick({0.0, 1.0}); }   // often widened to keep the invariant
+        IntervalConstraint ic(r.x1, r.x2, r.in1, r.in2);
+        c.desc << "; restrictToConstraint(" << showRestr(r) << ")"; w << "restrictToConstraint" << showRestr(r);
+        bool ok = refAccepts(ic, inv);
+        double e1 = std::max(r.x1, nst.getLowerBound()), e2 = std::min(r.x2, nst.getUpperBound());
+        if (ok && !(e1 < e2 && massOf(e1, e2) >= 0.02)) { c.desc << "(skipped: no mass)"; break; }
+        if (ok) guardKnown(c, nm, e1, e2);
+        Obs before = observeD(*d);
+        try { d->restrictToConstraint(ic); CHECK(ok, w.str() << ": accepted although the invariant " << vf::dec(inv) << " lies outside"); touched = true; }
+        catch (ConstraintException&) { CHECK(!ok, w.str() << ": ConstraintException although the invariant lies inside the interval"); c.desc << "!"; rejected = true; string df = diffObs(before, observeD(*d)); CHECK(df.empty(), w.str() << ": a refused restriction changed the " << df); }
+        break; }
+      case 4: c.desc << "; discretize()"; w << "discretize()"; d->discretize(); break;
+      case 5: {
+        c.desc << "; clone"; w << "clone"; unique_ptr<DDI> e(d->clone());
+        string df = diffObs(observeD(*d), observeD(*e)); CHECK(df.empty(), w.str() << ": the clone differs from the original in the " << df);
+        if (c.flag()) d = std::move(e);
+        break; }
+      default: {
+        Model o2 = genNestedModel(c, true); double p2 = c.unit(), i2 = static_cast<double>(c.zig(3));
+        c.desc << "; assign over InvariantMixed(" << showModel(o2) << ",p=" << vf::dec(p2) << ",invariant=" << vf::dec(i2) << ")"; w << "assignment";
+        if (o2.q.f == F_GAMMA && o2.q.off < 0) o2.q.off = 0;
+        unique_ptr<DDI> e(new InvariantMixedDiscreteDistribution(make(o2.q, o2.K, o2.scheme), p2, i2));
+        dynamic_cast<InvariantMixedDiscreteDistribution&>(*e) = dynamic_cast<const InvariantMixedDiscreteDistribution&>(*d);
+        string df = diffObs(observeD(*d), observeD(*e)); CHECK(df.empty(), w.str() << ": the assigned object differs from the source in the " << df);
+        d = std::move(e);
+        break; }
+    }
+    check(w.str());
+  }
+  c.nt(place == 2 || place == 3 || touched || rejected);
+  if (place == 2) c.label("invariant_coincides_with_a_class");
+}
+
+// =================================================================== L7: mixture of continuous distributions
+LAW(L7_mixture, RC, 3000, 150000, 220, "always (compound family): 2-3 components merged into one set of classes", 5, true) {
+  CheckOpt opt; opt.lookups = c.flag(); if (opt.lookups) c.desc << "[lookups] ";
+  size_t nc = static_cast<size_t>(c.irange(2, 3));
+  vector<Model> comps; vector<unique_ptr<DDI>> objs; vector<unsigned> iw; unsigned W = 0;
+  bool sameTwice = c.oneIn(5);
+  for (size_t i = 0; i < nc; ++i) {
+    Model m = (sameTwice && i == 1) ? comps[0] : genNestedModel(c, true);
+    if (m.K > 12) m.K = 1 + m.K % 12;
+    comps.push_back(m); iw.push_back(1 + static_cast<unsigned>(c.below(4))); W += iw.back();
+  }
+  vector<double> probas; for (unsigned x : iw) probas.push_back(static_cast<double>(x) / W);
+  vector<double> theta; { LD rest = 1; for (size_t i = 0; i + 1 < nc; ++i) { theta.push_back(static_cast<double>(probas[i] / rest)); rest -= probas[i]; } }
+  c.desc << "Mixture(";
+  for (size_t i = 0; i < nc; ++i) { c.desc << (i ? " + " : "") << vf::dec(probas[i]) << "*" << showModel(comps[i]); objs.push_back(make(comps[i].q, comps[i].K, comps[i].scheme)); guardKnown(c, comps[i], objs[i]->getLowerBound(), objs[i]->getUpperBound()); }
+  c.desc << ")";
+  unique_ptr<DDI> d(new MixtureOfDiscreteDistributions(objs, probas));
+  objs.clear();
+  auto mix = [&]() -> const MixtureOfDiscreteDistributions& { return dynamic_cast<const MixtureOfDiscreteDistributions&>(*d); };
+  auto nestedOf = [&](size_t i) -> const DDI& { return mix().nDistribution(i); };
+  for (size_t i = 0; i + 1 < nc; ++i) { double got = d->getParameterValue("theta" + to_string(i + 1)); CHECK(std::abs(got - theta[i]) <= 1e-13, "after construction: theta" << i + 1 << " = " << vf::dec(got) << ", the documented parametrisation gives " << vf::dec(theta[i])); theta[i] = got; }
+  bool exactW = true;
+  opt.lookT = 0.05 + 0.9 * c.unit();
+  bool outerMedian = false;
+  auto check = [&](const string& where) {
+    bool regular = true;
+    for (size_t i = 0; i < nc; ++i) { checkCont(c, nestedOf(i), comps[i], opt, where + " (component " + to_string(i + 1) + ")"); if (!nestedRegular(comps[i], nestedOf(i))) regular = false; }
+    CHECK(mix().getNumberOfDistributions() == nc, where << ": number of components");
+    // weights: p_i = theta_i * prod_{j<i} (1-theta_j)
+    vector<LD> wgt(nc); { LD rest = 1; for (size_t i = 0; i + 1 < nc; ++i) { wgt[i] = static_cast<LD>(theta[i]) * rest; rest *= 1 - static_cast<LD>(theta[i]); } wgt[nc - 1] = rest; }
+    if (exactW) for (size_t i = 0; i < nc; ++i) wgt[i] = probas[i];
+    for (size_t i = 0; i < nc; ++i) CHECK(std::abs(mix().getNProbability(i) - static_cast<double>(wgt[i])) <= 1e-13, where << ": weight of component " << i + 1 << " is " << vf::dec(mix().getNProbability(i)) << ", the documented parametrisation gives " << vf::dec(static_cast<double>(wgt[i])));
+    if (!regular) { auditParams(*d, where); return; }
+    double prec = precisionOf(*d);
+    RefMap want(RefOrder{prec});
+    for (size_t i = 0; i < nc; ++i) { Vdouble v = nestedOf(i).getCategories(); for (double x : v) want[x] = 0; }
+    for (size_t i = 0; i < nc; ++i) { Vdouble v = nestedOf(i).getCategories(), p = nestedOf(i).getProbabilities(); for (size_t j = 0; j < v.size(); ++j) want[v[j]] += static_cast<LD>(p[j]) * static_cast<LD>(mix().getNProbability(i)); }
+    size_t K = want.size(); bool anyMedian = false; for (auto& m : comps) if (m.median) anyMedian = true;
+    Obs o = checkStructure(*d, K, (K + 1) * prec, K * 1e-12, false, where);
+    compareClasses(o, want, 8 * EPS, where);
+    // each class value lies between the midpoints to its neighbours; the domain is the hull of the components' domains
+    for (size_t k = 0; k + 1 < K; ++k) CHECK(std::abs(o.b[k + 1] - (o.v[k] + o.v[k + 1]) / 2) <= 4 * EPS * std::max(std::abs(o.v[k]), std::abs(o.v[k + 1])), where << ": interior bound " << k << " is not between the neighbouring values");
+    double hlo = INFINITY, hhi = -INFINITY; for (size_t i = 0; i < nc; ++i) { hlo = std::min(hlo, nestedOf(i).getLowerBound()); hhi = std::max(hhi, nestedOf(i).getUpperBound()); }
+    CHECK(vf::sameBits(o.lo, hlo) && vf::sameBits(o.hi, hhi), where << ": domain [" << vf::dec(o.lo) << ";" << vf::dec(o.hi) << "] is not the hull [" << vf::dec(hlo) << ";" << vf::dec(hhi) << "] of the components' domains");
+    (void)anyMedian;
+    for (size_t k = 0; k < K; k += 1 + K / 6) {   // cdf = mixture of the component cdfs
+      double x = o.v[k]; LD ref = 0; double t = 4 * EPS; for (size_t i = 0; i < nc; ++i) { ref += wgt[i] * refP(comps[i].q, x); t += static_cast<double>(wgt[i]) * tolOf(comps[i].q.f).p; }
+      CHECK(std::abs(d->pProb(x) - static_cast<double>(ref)) <= t + 1e-13, where << ": pProb(" << vf::dec(x) << ") = " << vf::dec(d->pProb(x)) << " but the mixture of the component cdfs is " << vf::dec(static_cast<double>(ref)));
+    }
+    // values inside their own interval holds by construction of midpoint bounds when the extreme values lie in the domain
+    bool inside = true; for (size_t i = 0; i < nc; ++i) if (comps[i].median) inside = false;
+    if (inside) for (size_t k = 0; k < K; ++k) CHECK(o.v[k] >= o.b[k] - (K + 1) * prec && o.v[k] <= o.b[k + 1] + (K + 1) * prec, where << ": value " << vf::dec(o.v[k]) << " of class " << k << " lies outside its interval [" << vf::dec(o.b[k]) << ";" << vf::dec(o.b[k + 1]) << "]");
+    if (opt.lookups) checkLookups(c, *d, o, (K + 1) * prec, opt, where);
+    auditParams(*d, where);
+  };
+  check("after construction");
+  vector<Slot> slots;
+  for (size_t i = 0; i < nc; ++i) for (const PRef& pr : paramsOf(comps[i].q)) slots.push_back({to_string(i + 1) + "_" + nsOf(comps[i].q.f) + pr.name, static_cast<int>(i), pr.which});
+  for (size_t i = 0; i + 1 < nc; ++i) slots.push_back({"theta" + to_string(i + 1), -1, static_cast<int>(i)});
+  bool anyTexp = false; for (auto& m : comps) if (m.q.f == F_TEXP) anyTexp = true;
+  bool rejected = false;
+  int nops = c.irange(0, 8);
+  for (int op = 0; op < nops; ++op) {
+    ostringstream w; w << "after op " << op + 1 << " ";
+    switch (c.weighted({5, 2, 2, 3, 1, 1, 1})) {
+      case 0: if (compoundUpdate(c, *d, slots, comps, theta, nestedOf, rejected, w)) exactW = false; break;
+      case 1: {
+        size_t nk = static_cast<size_t>(c.irange(1, 12)); c.desc << "; setNumberOfCategories(" << nk << ")"; w << "setNumberOfCategories(" << nk << ")";
+        for (size_t i = 0; i < nc; ++i) { comps[i].K = nk; guardKnown(c, comps[i], nestedOf(i).getLowerBound(), nestedOf(i).getUpperBound()); }
+        d->setNumberOfCategories(nk); break; }
+      case 2: {
+        bool md = c.flag(); c.desc << "; setMedian(" << md << ")"; w << "setMedian(" << md << ")";
+        if (md != outerMedian) { for (size_t i = 0; i < nc; ++i) { comps[i].median = md; guardKnown(c, comps[i], nestedOf(i).getLowerBound(), nestedOf(i).getUpperBound()); } outerMedian = md; }
+        d->setMedian(md); break; }
+      case 3: {  // restriction: every component keeps mass
+        bool reg = true; for (size_t i = 0; i < nc; ++i) if (!nestedRegular(comps[i], nestedOf(i))) reg = false;
+        if (anyTexp || !reg) { c.desc << "; nop"; break; }
+        size_t from = c.below(nc); Restr r;
+        auto massOf = [&](double a, double b) { double mn = 1; for (size_t i = 0; i < nc; ++i) { double e1 = std::max(a, nestedOf(i).getLowerBound()), e2 = std::min(b, nestedOf(i).getUpperBound()); mn = std::min(mn, e1 < e2 ? static_cast<double>(refP(comps[i].q, e2) - refP(comps[i].q, e1)) : 0.0); } return mn; };
+        if (!genRestriction(c, nestedOf(from), true, [&](double, double) { return 1.0; }, r, false)) { c.desc << "; nop"; break; }
+        if (!(massOf(r.x1, r.x2) >= 0.02)) { c.desc << "; nop"; break; }
+        c.desc << "; restrictToConstraint(" << showRestr(r) << ")"; w << "restrictToConstraint" << showRestr(r);
+        for (size_t i = 0; i < nc; ++i) guardKnown(c, comps[i], std::max(r.x1, nestedOf(i).getLowerBound()), std::min(r.x2, nestedOf(i).getUpperBound()));
+        d->restrictToConstraint(IntervalConstraint(r.x1, r.x2, r.in1, r.in2));
+        break; }
+      case 4: c.desc << "; discretize()"; w << "discretize()"; d->discretize(); break;
+      case 5: {
+        c.desc << "; clone"; w << "clone"; unique_ptr<DDI> e(d->clone());
+        string df = diffObs(observeD(*d), observeD(*e)); CHECK(df.empty(), w.str() << ": the clone differs from the original in the " << df);
+        if (c.flag()) d = std::move(e);
+        break; }
+      default: {
+        c.desc << "; assign over Mixture(Exponential(1) K=2 + Uniform(0,1) K=1)"; w << "assignment";
+        vector<unique_ptr<DDI>> o2; o2.push_back(make_unique<ExponentialDiscreteDistribution>(2, 1.0)); o2.push_back(make_unique<UniformDiscreteDistribution>(1, 0.0, 1.0));
+        unique_ptr<DDI> e(new MixtureOfDiscreteDistributions(o2, {0.5, 0.5}));
+        dynamic_cast<MixtureOfDiscreteDistributions&>(*e) = mix();
+        string df = diffObs(observeD(*d), observeD(*e)); CHECK(df.empty(), w.str() << ": the assigned object differs from the source in the " << df);
+        d = std::move(e);
+        break; }
+    }
+    check(w.str());
+  }
+  c.nt(true);
+  if (rejected) c.label("rejected_update");
 }
 
 static struct Init { Init() { vf::G().resetHook = [] { vf::quietBpp(); vf::installAudit(); }; } } init_;
